@@ -454,6 +454,92 @@ func pgShadowsCaptured(body *pgNode, ps []string) bool {
 	return found
 }
 
+// pgCaptureOrder: the names a closure body captures, in the order of their first use in the text
+// (the order in which the parser records OuterIdents): identifiers that are in `outside`, not
+// parameters and not bound by a let/func/closure parameter between the closure and the use
+func pgCaptureOrder(body *pgNode, params []string, outside map[string]bool) []string {
+	var order []string
+	var walk func(n *pgNode, local []string)
+	walk = func(n *pgNode, local []string) {
+		switch n.K {
+		case "ident":
+			if !pgContains(local, n.Name) && outside[n.Name] && !pgContains(order, n.Name) {
+				order = append(order, n.Name)
+			}
+		case "let":
+			walk(n.Kids[0], local)
+			walk(n.Kids[1], append(append([]string{}, local...), n.Name))
+		case "func":
+			inner := append(append([]string{}, local...), n.Name)
+			walk(n.Kids[0], append(append([]string{}, inner...), n.Ps...))
+			walk(n.Kids[1], inner)
+		case "clo":
+			walk(n.Kids[0], append(append([]string{}, local...), n.Ps...))
+		default:
+			for _, k := range n.Kids {
+				walk(k, local)
+			}
+		}
+	}
+	walk(body, params)
+	return order
+}
+
+// pgCtxPermuted: some closure Y directly nested in a closure X captures at least two names, exactly the
+// names X captures, and first uses them in a different order than X's body does (the values reach Y
+// through X's context; a context shared between the two would be read in the wrong order)
+func pgCtxPermuted(root *pgNode, statics map[string]bool) bool {
+	// names that can be captured: every identifier of the program that is a binder somewhere or is
+	// neither a constant nor a static function (the arguments of the program are among those)
+	outside := map[string]bool{}
+	bound := map[string]bool{}
+	root.Walk(func(x *pgNode) {
+		if x.K == "let" || x.K == "func" {
+			bound[x.Name] = true
+		}
+		if x.K == "clo" || x.K == "func" {
+			for _, p := range x.Ps {
+				bound[p] = true
+			}
+		}
+	})
+	root.Walk(func(x *pgNode) {
+		if x.K == "ident" && (bound[x.Name] || !(x.Name == "true" || x.Name == "false" || x.Name == "pi" || statics[x.Name])) {
+			outside[x.Name] = true
+		}
+	})
+	found := false
+	var nested func(n *pgNode, orderX []string)
+	nested = func(n *pgNode, orderX []string) {
+		if n.K == "clo" {
+			orderY := pgCaptureOrder(n.Kids[0], n.Ps, outside)
+			if len(orderY) >= 2 && len(orderY) == len(orderX) && strings.Join(orderY, ",") != strings.Join(orderX, ",") {
+				same := true
+				for _, y := range orderY {
+					if !pgContains(orderX, y) {
+						same = false
+					}
+				}
+				if same {
+					found = true
+				}
+			}
+			return
+		}
+		for _, k := range n.Kids {
+			nested(k, orderX)
+		}
+	}
+	root.Walk(func(x *pgNode) {
+		if x.K == "clo" {
+			nested(x.Kids[0], pgCaptureOrder(x.Kids[0], x.Ps, outside))
+		} else if x.K == "func" {
+			nested(x.Kids[0], pgCaptureOrder(x.Kids[0], append([]string{x.Name}, x.Ps...), outside))
+		}
+	})
+	return found
+}
+
 func pgClosureDepth(n *pgNode) int {
 	d := 0
 	for _, k := range n.Kids {
@@ -538,6 +624,9 @@ func (n *pgNode) shapes(statics map[string]bool) map[string]bool {
 			}
 		}
 	})
+	if pgCtxPermuted(n, statics) {
+		res["inner closure reads the enclosing closure's captured names in another order"] = true
+	}
 	if d := pgClosureDepth(n); d >= 2 {
 		res[fmt.Sprintf("closure levels >= %d", min(d, 3))] = true
 	}
@@ -679,6 +768,8 @@ type pgProgGen struct {
 	illTyped bool // this program gets deliberate type errors (10 % per node)
 	redecl   bool // this program redeclares names on purpose
 	maxDepth int
+	c02      bool // bias for the optimizer check: constant sub-expressions, operator chains with constants, tick/ptick
+	tickN    int  // ids handed to tick(k, x)
 }
 
 func (g *pgProgGen) pick(n int) int          { return g.r.Pick(n) }
@@ -803,7 +894,11 @@ var pgFloatLits = []float64{0.5, 1.5, 2.25, 0.25, 8, 3, -0.5, 100.125, 0}
 
 func (g *pgProgGen) leaf(t *pgTy, e *pgGenv) *pgNode {
 	vars := e.visible(func(x *pgTy) bool { return pgTyEq(x, t) })
-	if len(vars) > 0 && g.chance(0.8) {
+	pv := 0.8
+	if g.c02 {
+		pv = 0.45 // more literals: constant sub-expressions for the optimizer
+	}
+	if len(vars) > 0 && g.chance(pv) {
 		return pgNId(vars[g.pick(len(vars))].name)
 	}
 	switch t.K {
@@ -863,6 +958,37 @@ func (g *pgProgGen) expr(t *pgTy, e *pgGenv, size int, allowLet bool) *pgNode {
 	}
 	if size <= 1 || e.depth > g.maxDepth+3 {
 		return g.leaf(t, e)
+	}
+	if g.c02 && size >= 3 && t.K != "err" {
+		c := g.pick(100)
+		switch {
+		case c < 6:
+			// tick(k, x): an impure host function that counts its calls and returns x
+			g.tickN++
+			return pgNCall("static", pgNId("tick"), pgNInt(int64(g.tickN)), g.expr(t, e, size-2, true))
+		case c < 8:
+			return pgNCall("static", pgNId("ptick"), pgNInt(0), g.expr(t, e, size-2, true))
+		case c < 16:
+			if size >= 5 {
+				return g.chain(t, e, size)
+			}
+		case c < 19:
+			// a pure built-in failing on constants must stay in the program (the fold is dropped, not replaced)
+			if size >= 4 {
+				var bad *pgNode
+				switch g.pick(4) {
+				case 0:
+					bad = g.staticCall(t, e, []string{"abs", "sqr", "sign", "int", "float"}, pgConstOf(g.oneOf([]string{"str", "bool", "list"}), g.pick(4)))
+				case 1:
+					bad = pgNMethod("method", pgNList(), g.oneOf([]string{"first", "last", "sum"}))
+				case 2:
+					bad = pgNOp(g.oneOf([]string{"%", "<<", "-", "<"}), pgConstOf("int", g.pick(5)), pgConstOf(g.oneOf([]string{"str", "bool", "map"}), g.pick(4)))
+				default:
+					bad = pgNIndex(pgNList(pgNInt(1)), pgNInt(int64(1+g.pick(3))))
+				}
+				return pgNTry(bad, g.expr(t, e, size-3, true))
+			}
+		}
 	}
 	// wrappers that exist for every type
 	for tries := 0; tries < 4; tries++ {
@@ -927,6 +1053,12 @@ func (g *pgProgGen) expr(t *pgTy, e *pgGenv, size int, allowLet bool) *pgNode {
 		case c < 66:
 			if size >= 9 && t.K != "fun" {
 				return g.orderProbe(t, e, size)
+			}
+		case c < 70:
+			if size >= 16 && t.K == "int" {
+				if n := g.ctxPermute(e, size); n != nil {
+					return g.guard(n, t, e, allowLet)
+				}
 			}
 		default:
 			return g.typed(t, e, size, allowLet)
@@ -1275,6 +1407,76 @@ func (g *pgProgGen) guard(n *pgNode, t *pgTy, e *pgGenv, allowLet bool) *pgNode 
 	return pgNIf(pgNId("true"), n, g.leaf(t, e))
 }
 
+// an outer closure whose body first mentions the captured names in one order (b in a condition or a let,
+// then a) and returns an inner closure that mentions the same names in another order (a before b) in a
+// non-commutative combination, without using the outer closure's parameter; applied level by level:
+//
+//	(p -> if b > p then (q -> a * q - b) else (q -> q))(e1)(e2)        - optionally a third level around it
+func (g *pgProgGen) ctxPermute(e *pgGenv, size int) *pgNode {
+	vars := e.visible(func(x *pgTy) bool { return x.K == "int" })
+	if len(vars) < 2 {
+		return nil
+	}
+	i := g.pick(len(vars))
+	j := (i + 1 + g.pick(len(vars)-1)) % len(vars)
+	a, b := vars[i].name, vars[j].name
+	fresh := func(n int) []string {
+		var ns []string
+		for len(ns) < n {
+			c := g.oneOf(pgNamePool)
+			if c != a && c != b && !pgContains(ns, c) {
+				ns = append(ns, c)
+			}
+		}
+		return ns
+	}
+	ns := fresh(3)
+	p, q, r := ns[0], ns[1], ns[2]
+	var innerBody *pgNode
+	switch g.pick(4) {
+	case 0:
+		innerBody = pgNOp("-", pgNOp("*", pgNId(a), pgNId(q)), pgNId(b))
+	case 1:
+		innerBody = pgNOp("-", pgNId(a), pgNOp("+", pgNOp("*", pgNId(b), pgNInt(3)), pgNId(q)))
+	case 2:
+		innerBody = pgNOp("+", pgNOp("<<", pgNId(a), pgNInt(4)), pgNOp("-", pgNId(b), pgNId(q)))
+	default:
+		innerBody = pgNOp("-", pgNIndex(pgNList(pgNId(a), pgNId(b)), pgNInt(0)), pgNOp("*", pgNId(b), pgNId(q)))
+	}
+	inner := pgNClo([]string{q}, innerBody)
+	other := pgNClo([]string{q}, pgNId(q))
+	var outerBody *pgNode
+	switch g.pick(3) {
+	case 0:
+		outerBody = pgNIf(pgNOp(g.cmpOp(), pgNId(b), pgNId(p)), inner, other)
+	case 1:
+		t := fresh(1)[0]
+		for t == p || t == q {
+			t = fresh(1)[0]
+		}
+		outerBody = pgNLet(t, pgNOp("+", pgNId(b), pgNId(p)), pgNIf(pgNOp(">=", pgNId(t), pgNId(p)), inner, other))
+	default:
+		outerBody = pgNIf(pgNOp("=", pgNCall("static", pgNId("min"), pgNId(b), pgNId(p)), pgNId(p)), inner, inner)
+		if _, bound := e.lookup("min"); bound {
+			outerBody = pgNIf(pgNOp("<", pgNId(b), pgNId(p)), inner, inner)
+		}
+	}
+	outer := pgNClo([]string{p}, outerBody)
+	sz := g.split(max(size-14, 3), 3)
+	arg := func(k int) *pgNode { return g.expr(pgTInt, e, sz[k], true) }
+	if g.chance(0.35) {
+		// three levels
+		outer3 := pgNClo([]string{r}, outer)
+		return pgNCall("closure", pgNCall("closure", pgNCall("closure", outer3, arg(0)), arg(1)), arg(2))
+	}
+	if g.chance(0.5) {
+		return pgNCall("closure", pgNCall("closure", outer, arg(0)), arg(1))
+	}
+	// let f = outer; f(e1)(e2) needs a let position: the caller guards it
+	f := g.freshName(e, []string{a, b})
+	return pgNLet(f, outer, pgNCall("closure", pgNCall("closure", pgNId(f), arg(0)), arg(1)))
+}
+
 // m.f(args) where the field f of the map m holds a closure
 func (g *pgProgGen) mapFieldCall(t *pgTy, e *pgGenv, size int) *pgNode {
 	k := 1 + g.pick(3)
@@ -1574,6 +1776,105 @@ func (g *pgProgGen) staticCall(t *pgTy, e *pgGenv, names []string, args ...*pgNo
 	return pgNCall("static", pgNId(free[g.pick(len(free))]), args...)
 }
 
+// ---------- operator chains with constants (C02: folding and regrouping) ----------
+
+var pgAllOps = []string{"|", "&", "=", "!=", "~", "<", ">", "<=", ">=", "+", "-", "<<", ">>", "*", "%", "/", "^"}
+var pgConstKinds = []string{"int", "float", "str", "bool", "list", "map"}
+
+// a literal constant of the given kind (what the optimizer sees as a Const node after folding)
+func pgConstOf(kind string, variant int) *pgNode {
+	switch kind {
+	case "int":
+		return pgNInt([]int64{2, 3, 0, 7, 1}[variant%5])
+	case "float":
+		return pgNFloat([]float64{0.5, 2.5, 4, 0.25}[variant%4])
+	case "str":
+		return pgNStr([]string{"a", "b", "ab", ""}[variant%4])
+	case "bool":
+		return pgNId([]string{"true", "false"}[variant%2])
+	case "list":
+		if variant%2 == 0 {
+			return pgNList(pgNInt(1), pgNInt(2))
+		}
+		return pgNList(pgNInt(int64(variant)))
+	case "map":
+		if variant%2 == 0 {
+			return pgNMap([]string{"a"}, []*pgNode{pgNInt(1)})
+		}
+		return pgNMap([]string{"b"}, []*pgNode{pgNInt(int64(variant))})
+	}
+	panic("pgConstOf: " + kind)
+}
+
+// the three shapes in which two constants and one non-constant operand meet in a left-associative chain
+func pgChainShape(shape int, op string, c1, c2, x *pgNode) *pgNode {
+	switch shape % 3 {
+	case 0:
+		return pgNOp(op, pgNOp(op, c1, x), c2) // c op x op c
+	case 1:
+		return pgNOp(op, pgNOp(op, x, c1), c2) // x op c op c
+	}
+	return pgNOp(op, pgNOp(op, c1, c2), x) // c op c op x
+}
+
+// chain: mostly typed so that it evaluates (int, float, string, bool chains), otherwise any operator
+// with any two constant kinds (most of those are errors - with and without the optimizer alike)
+func (g *pgProgGen) chain(t *pgTy, e *pgGenv, size int) *pgNode {
+	xs := max(size-4, 1)
+	v := g.pick(20)
+	if g.chance(0.75) {
+		switch t.K {
+		case "int":
+			op := g.oneOf([]string{"+", "-", "*", "*", "&", "|", "%", "<<", "^"})
+			return pgChainShape(g.pick(3), op, pgConstOf("int", v), pgConstOf("int", v+1), g.expr(pgTInt, e, xs, false))
+		case "float":
+			op := g.oneOf([]string{"+", "-", "*", "*", "/"})
+			k1, k2 := g.oneOf([]string{"int", "float"}), g.oneOf([]string{"int", "float", "float"})
+			xt := pgTFloat
+			if g.chance(0.4) && (k1 == "float" || k2 == "float") {
+				xt = pgTInt
+			}
+			if k1 == "int" && k2 == "int" && xt == pgTInt && op != "/" {
+				k2 = "float"
+			}
+			return pgChainShape(g.pick(3), op, pgConstOf(k1, v), pgConstOf(k2, v+1), g.expr(xt, e, xs, false))
+		case "str":
+			xt := g.oneOf([]string{"str", "int", "bool"})
+			k2 := g.oneOf([]string{"str", "int", "bool"})
+			return pgChainShape(g.pick(2), "+", pgConstOf("str", v), pgConstOf(k2, v+1), g.expr(&pgTy{K: xt}, e, xs, false))
+		case "bool":
+			switch g.pick(3) {
+			case 0:
+				return pgChainShape(g.pick(3), g.oneOf([]string{"&", "|"}), pgConstOf("bool", v), pgConstOf("bool", v+1), g.expr(pgTBool, e, xs, false))
+			case 1:
+				op := g.oneOf([]string{"=", "!="})
+				return pgChainShape(g.pick(3), op, pgConstOf("bool", v), pgConstOf("bool", v+1), g.expr(pgTBool, e, xs, false))
+			default:
+				// (c1 < x) = c2 : a comparison folded into an equality chain
+				return pgNOp("=", pgNOp(g.cmpOp(), pgConstOf("int", v), g.expr(pgTInt, e, xs, false)), pgConstOf("bool", v))
+			}
+		case "list":
+			return pgChainShape(g.pick(3), "+", pgNList(g.leaf(t.Elem, &pgGenv{})), pgNList(), g.expr(t, e, xs, false))
+		}
+	}
+	op := g.oneOf(pgAllOps)
+	k1, k2 := g.oneOf(pgConstKinds), g.oneOf(pgConstKinds)
+	return pgChainShape(g.pick(3), op, pgConstOf(k1, v), pgConstOf(k2, v+1), g.expr(g.randomType(1), e, xs, false))
+}
+
+// pgEraseTicks: the tree with every call tick(k, x) / ptick(k, x) replaced by x (for the specification side)
+func pgEraseTicks(n *pgNode) *pgNode {
+	if n.K == "call" && len(n.Kids) == 3 && n.Kids[0].K == "ident" && (n.Kids[0].Name == "tick" || n.Kids[0].Name == "ptick") {
+		return pgEraseTicks(n.Kids[2])
+	}
+	c := *n
+	c.Kids = make([]*pgNode, len(n.Kids))
+	for i, k := range n.Kids {
+		c.Kids[i] = pgEraseTicks(k)
+	}
+	return &c
+}
+
 // ---------- argument values ----------
 
 var pgArgIntPool = []int64{0, 1, -1, 2, -2, 7, 63, 64, 1 << 31, 1<<53 - 1, 1 << 53, math.MinInt64, math.MaxInt64}
@@ -1654,8 +1955,13 @@ type pgProgram struct {
 var pgArgNamePool = []string{"x", "y", "z", "x", "y", "pi", "sqr"}
 
 func pgGenProgram(r *Rng, statics map[string]bool, maxNodes int) *pgProgram {
+	return pgGenProgramMode(r, statics, maxNodes, false)
+}
+
+// c02: the bias for the optimizer check (constants, chains, tick/ptick)
+func pgGenProgramMode(r *Rng, statics map[string]bool, maxNodes int, c02 bool) *pgProgram {
 	for {
-		g := &pgProgGen{r: r, statics: statics, maxDepth: 3}
+		g := &pgProgGen{r: r, statics: statics, maxDepth: 3, c02: c02}
 		stream := "well-typed"
 		c := r.Pick(100)
 		switch {
@@ -1700,7 +2006,14 @@ func pgGenProgram(r *Rng, statics map[string]bool, maxNodes int) *pgProgram {
 			rt = pgTInt
 		}
 		var tree *pgNode
-		if r.Chance(0.12) && budget >= 10 {
+		if !c02 && budget >= 16 && r.Chance(0.06) {
+			tree = g.ctxPermute(env, budget)
+		}
+		if tree != nil {
+			// the context-permutation shape at the root
+		} else if c02 && r.Chance(0.2) {
+			tree = g.chain(g.scalarType(), env, budget)
+		} else if r.Chance(0.12) && budget >= 10 {
 			tree = g.curried(rt, env, budget)
 		} else {
 			tree = g.expr(rt, env, budget, true)
